@@ -276,7 +276,7 @@ class Model:
                 if not body:
                     continue
                 body = _normal_body(body)
-                if any(isinstance(n, (ast.Yield, ast.YieldFrom, ast.FunctionDef, ast.Lambda, ast.Global, ast.Nonlocal, ast.While)) for b in body for n in ast.walk(b)):
+                if any(isinstance(n, (ast.Yield, ast.YieldFrom, ast.FunctionDef, ast.Global, ast.Nonlocal, ast.While)) for b in body for n in ast.walk(b)):
                     continue
                 # no (mutual) recursion
                 if any(isinstance(c, ast.Call) and isinstance(c.func, ast.Attribute) and c.func.attr == name for b in body for c in ast.walk(b)):
@@ -336,7 +336,7 @@ class Model:
             if not body:
                 return
             body = _normal_body(body)
-            if any(isinstance(n, (ast.Yield, ast.YieldFrom, ast.FunctionDef, ast.Lambda, ast.Global, ast.Nonlocal, ast.While)) for b in body for n in ast.walk(b)):
+            if any(isinstance(n, (ast.Yield, ast.YieldFrom, ast.FunctionDef, ast.Global, ast.Nonlocal, ast.While)) for b in body for n in ast.walk(b)):
                 return
             if any(isinstance(c, ast.Call) and isinstance(c.func, ast.Name) and c.func.id == name for b in body for c in ast.walk(b)):
                 return
@@ -365,21 +365,33 @@ class Model:
         callers = list(mi.functions.values())
         for ci in mi.classes.values():
             callers.extend(ci.all_defs)
-        for fi in callers:
-            if fi.cls is None and fi.name in helpers and helpers[fi.name][0] is fi:
-                continue
-            new = _inline_calls(fi, None, helpers, used)
-            if new is not None:
-                fi.node = new
-                fi.expanded = True
+        for _ in range(4):          # a helper handed to a helper as a callable shows up as a call only after the first expansion
+            changed = False
+            for fi in callers:
+                if fi.cls is None and fi.name in helpers and helpers[fi.name][0] is fi:
+                    continue
+                new = _inline_calls(fi, None, helpers, used)
+                if new is not None:
+                    fi.node = new
+                    fi.expanded = True
+                    changed = True
+            if not changed:
+                break
         self.inlined.extend(sorted(used))
-        for name in used:
-            still = any(isinstance(c, ast.Call) and isinstance(c.func, ast.Name) and c.func.id == name
-                        for fi in callers if not (fi.cls is None and fi.name == name) for c in ast.walk(fi.node))
-            if not still and name in mi.functions and helpers[name][0] is mi.functions[name]:
-                if not hasattr(mi, 'expanded_helpers'):
-                    mi.expanded_helpers = {}
-                mi.expanded_helpers[name] = mi.functions.pop(name)
+        gone = set()
+        for _ in range(4):          # a helper only called by expanded helpers goes with them
+            before = len(gone)
+            for name in sorted(used - gone):
+                still = any(isinstance(c, ast.Call) and isinstance(c.func, ast.Name) and c.func.id == name
+                            for fi in callers if not (fi.cls is None and (fi.name == name or (fi.name in gone and helpers.get(fi.name, (None,))[0] is fi)))
+                            for c in ast.walk(fi.node))
+                if not still and name in mi.functions and helpers[name][0] is mi.functions[name]:
+                    if not hasattr(mi, 'expanded_helpers'):
+                        mi.expanded_helpers = {}
+                    mi.expanded_helpers[name] = mi.functions.pop(name)
+                    gone.add(name)
+            if len(gone) == before:
+                break
 
     # ------------------------------------------------------------------ load
     def _load(self):
@@ -400,6 +412,7 @@ class Model:
             _canonicalise_imports(tree)
             _canonicalise_copyto(tree)
             _canonicalise_ndindex(tree)
+            _canonicalise_index_constants(tree)
             if rel.endswith('tracer/tracer.py'):
                 # the tracer rules read access paths (`F.setitem`, `cls.cgraph`, `F.args[0].x`); the kernels keep their locals (E1/E2 follow them)
                 _canonicalise_paths(tree)
@@ -945,6 +958,15 @@ def _is_kind_test(e, stable):
     if isinstance(e, ast.Compare) and len(e.ops) == 1 and isinstance(e.ops[0], (ast.Is, ast.IsNot)) and isinstance(e.left, ast.Name) \
             and e.left.id in stable and isinstance(e.comparators[0], ast.Constant) and e.comparators[0].value is None:
         return True
+    # a test of a never-reassigned scalar option: type(r) == int, r >= 0, r == 0
+    if isinstance(e, ast.Compare) and len(e.ops) == 1:
+        l, c = e.left, e.comparators[0]
+        if isinstance(l, ast.Call) and dotted_name(l.func) == 'type' and len(l.args) == 1 and not l.keywords and isinstance(l.args[0], ast.Name) \
+                and l.args[0].id in stable and isinstance(e.ops[0], (ast.Eq, ast.Is, ast.NotEq, ast.IsNot)) and isinstance(c, (ast.Name, ast.Attribute)):
+            return True
+        if isinstance(l, ast.Name) and l.id in stable and isinstance(c, ast.Constant) and isinstance(c.value, int) and not isinstance(c.value, bool) \
+                and isinstance(e.ops[0], (ast.Eq, ast.NotEq, ast.Lt, ast.LtE, ast.Gt, ast.GtE)):
+            return True
     return False
 
 
@@ -967,6 +989,76 @@ def _canonicalise_copyto(tree):
                 return new
             return st
     T().visit(tree)
+
+
+def _index_literal(e):
+    """an element of a literal index: slice(...) of constants, numpy.newaxis, None, Ellipsis, an integer"""
+    if isinstance(e, ast.Constant) and (e.value is None or e.value is Ellipsis or (isinstance(e.value, int) and not isinstance(e.value, bool))):
+        return True
+    if isinstance(e, ast.Name) and e.id == 'Ellipsis':
+        return True
+    if dotted_name(e) == 'numpy.newaxis':
+        return True
+    if isinstance(e, ast.UnaryOp) and isinstance(e.op, ast.USub) and isinstance(e.operand, ast.Constant) and isinstance(e.operand.value, int):
+        return True
+    if isinstance(e, ast.Call) and isinstance(e.func, ast.Name) and e.func.id == 'slice' and not e.keywords and 1 <= len(e.args) <= 3:
+        return all(_index_literal(a) and not (isinstance(a, ast.Call)) for a in e.args)
+    return False
+
+
+def _canonicalise_index_constants(tree):
+    """a module-level name bound once to a literal index tuple (`_ALL = (slice(None), slice(None))`, `_AS_ROW = (slice(None), slice(None),
+    numpy.newaxis, slice(None))`) reads like the tuple written out where it is used; and `X[(slice(None), numpy.newaxis, ...)]` /
+    `X[slice(a, b)]` is the subscript `X[:, numpy.newaxis, ...]` / `X[a:b]` (same index object)"""
+    stores = {}
+    for n in ast.walk(tree):
+        if isinstance(n, ast.Name) and isinstance(n.ctx, (ast.Store, ast.Del)):
+            stores[n.id] = stores.get(n.id, 0) + 1
+        elif isinstance(n, ast.arg):
+            stores[n.arg] = stores.get(n.arg, 0) + 2
+        elif isinstance(n, (ast.FunctionDef, ast.ClassDef)):
+            stores[n.name] = stores.get(n.name, 0) + 2
+        elif isinstance(n, ast.alias):
+            stores[(n.asname or n.name).split('.')[0]] = stores.get((n.asname or n.name).split('.')[0], 0) + 2
+        elif isinstance(n, (ast.Global, ast.Nonlocal)):
+            for x in n.names:
+                stores[x] = stores.get(x, 0) + 2
+    consts = {}
+    for st in tree.body:
+        if isinstance(st, ast.Assign) and len(st.targets) == 1 and isinstance(st.targets[0], ast.Name) and stores.get(st.targets[0].id) == 1 \
+                and isinstance(st.value, ast.Tuple) and st.value.elts and all(_index_literal(e) for e in st.value.elts):
+            consts[st.targets[0].id] = st.value
+
+    def to_slice(e):
+        if isinstance(e, ast.Call) and isinstance(e.func, ast.Name) and e.func.id == 'slice' and _index_literal(e):
+            a = [None if (isinstance(x, ast.Constant) and x.value is None) else x for x in e.args]
+            if len(a) == 1:
+                a = [None, a[0], None]
+            a += [None] * (3 - len(a))
+            return ast.copy_location(ast.Slice(lower=a[0], upper=a[1], step=a[2]), e)
+        return e
+
+    class T(ast.NodeTransformer):
+        def visit_Name(self, n):
+            if isinstance(n.ctx, ast.Load) and n.id in consts:
+                new = copy.deepcopy(consts[n.id])
+                for x in ast.walk(new):
+                    ast.copy_location(x, n)
+                return self.visit(new)
+            if isinstance(n.ctx, ast.Load) and n.id == 'Ellipsis' and 'Ellipsis' not in stores:
+                return ast.copy_location(ast.Constant(value=Ellipsis), n)
+            return n
+
+        def visit_Subscript(self, n):
+            self.generic_visit(n)
+            sl = n.slice
+            if isinstance(sl, ast.Tuple) and any(isinstance(e, ast.Call) for e in sl.elts) and all(_index_literal(e) for e in sl.elts):
+                sl.elts = [to_slice(e) for e in sl.elts]
+            elif isinstance(sl, ast.Call):
+                n.slice = to_slice(sl)
+            return n
+    if consts or True:
+        T().visit(tree)
 
 
 def _canonicalise_ndindex(tree):
@@ -1519,6 +1611,8 @@ def _inline_calls(fi, clsname, helpers, used):
                 if p_ not in h.defaults:
                     return None
                 bound[p_] = h.defaults[p_]
+        if _lambda_capture(body, bound, caller_names):
+            return None
         assigned = {n.id for b in body for n in ast.walk(b) if isinstance(n, ast.Name) and isinstance(n.ctx, ast.Store)}
         mapping, pre = {}, []
         if recv is not None and recv_expr is not None:
@@ -1691,6 +1785,8 @@ def _inline_calls(fi, clsname, helpers, used):
                     if p_ not in h.defaults:
                         return c
                     bound[p_] = h.defaults[p_]
+            if _lambda_capture(body, bound, caller_names):
+                return c
             # names bound inside the helper expression (comprehension variables) must not capture names of the arguments
             inner = {n.id for n in ast.walk(body[0].value) if isinstance(n, ast.Name) and isinstance(n.ctx, ast.Store)}
             argnames = {n.id for e in bound.values() for n in ast.walk(e) if isinstance(n, ast.Name)}
@@ -1710,4 +1806,83 @@ def _inline_calls(fi, clsname, helpers, used):
             return new
 
     node = _Expr().visit(node)
+    if changed[0]:
+        _beta_reduce(node)
     return node if changed[0] else None
+
+
+def _lambda_capture(body, bound, caller_names):
+    """a lambda inside the helper body whose parameter would capture a name of a substituted argument, or that has anything
+    but plain positional parameters"""
+    lams = [n for b in body for n in ast.walk(b) if isinstance(n, ast.Lambda)]
+    if not lams:
+        return False
+    argnames = {n.id for e in bound.values() for n in ast.walk(e) if isinstance(n, ast.Name)}
+    for l in lams:
+        a = l.args
+        if a.vararg or a.kwarg or a.kwonlyargs or a.defaults or a.kw_defaults or a.posonlyargs:
+            return True
+        if {x.arg for x in a.args} & (argnames | set(bound)):
+            return True
+    return False
+
+
+def _beta_reduce(fn):
+    """`f = lambda a: E` bound once at the top level of the function and only ever called (`f(x)`) reads like E with x for a,
+    as long as nothing E mentions is assigned afterwards and every argument is either a plain access path or used once"""
+    stores = {}
+    for n in ast.walk(fn):
+        if isinstance(n, ast.Name) and isinstance(n.ctx, (ast.Store, ast.Del)):
+            stores.setdefault(n.id, []).append(n)
+    a_ = fn.args
+    fparams = {x.arg for x in a_.posonlyargs + a_.args + a_.kwonlyargs}
+
+    def pure_path(e):
+        if isinstance(e, ast.Constant) or dotted_name(e) is not None:
+            return True
+        if isinstance(e, ast.Subscript):
+            idx = e.slice.elts if isinstance(e.slice, ast.Tuple) else [e.slice]
+            return pure_path(e.value) and all(isinstance(i, (ast.Constant, ast.Name, ast.Slice)) for i in idx)
+        return False
+    for i, st in enumerate(list(fn.body)):
+        if not (isinstance(st, ast.Assign) and len(st.targets) == 1 and isinstance(st.targets[0], ast.Name) and isinstance(st.value, ast.Lambda)):
+            continue
+        name, lam = st.targets[0].id, st.value
+        if len(stores.get(name, ())) != 1 or name in fparams:
+            continue
+        la = lam.args
+        if la.vararg or la.kwarg or la.kwonlyargs or la.defaults or la.posonlyargs:
+            continue
+        lparams = [x.arg for x in la.args]
+        free = {n.id for n in ast.walk(lam.body) if isinstance(n, ast.Name)} - set(lparams)
+        # free names: parameters never reassigned, or locals whose only store comes before the lambda
+        ok = True
+        for f_ in free:
+            ss = stores.get(f_, [])
+            if not ss:
+                continue
+            if len(ss) > 1 or not any(any(x is ss[0] for x in ast.walk(b)) for b in fn.body[:i]):
+                ok = False
+        uses = [n for b in fn.body for n in ast.walk(b) if isinstance(n, ast.Name) and n.id == name and isinstance(n.ctx, ast.Load)]
+        calls = [c for b in fn.body for c in ast.walk(b) if isinstance(c, ast.Call) and isinstance(c.func, ast.Name) and c.func.id == name]
+        if not ok or not calls or len(uses) != len(calls):
+            continue
+        if any(c.keywords or len(c.args) != len(lparams) or any(isinstance(x, ast.Starred) for x in c.args) for c in calls):
+            continue
+        count = {p_: sum(1 for n in ast.walk(lam.body) if isinstance(n, ast.Name) and n.id == p_) for p_ in lparams}
+        if any(not pure_path(x) and count[p_] != 1 for c in calls for p_, x in zip(lparams, c.args)):
+            continue
+        if any(any(any(x is u for x in ast.walk(b)) for u in uses) for b in fn.body[:i + 1]):
+            continue        # used before / inside its own definition
+
+        class R(ast.NodeTransformer):
+            def visit_Call(self, c):
+                self.generic_visit(c)
+                if isinstance(c.func, ast.Name) and c.func.id == name:
+                    new = _Subst(dict(zip(lparams, c.args))).visit(copy.deepcopy(lam.body))
+                    for n in ast.walk(new):
+                        ast.copy_location(n, c)
+                    return new
+                return c
+        fn.body = [R().visit(b) for j, b in enumerate(fn.body) if j != i]
+        return _beta_reduce(fn)
